@@ -277,6 +277,27 @@ def run(rep):
                                             pq.mentions(x[2][0], lambda y: pq.call_named(y, "fromfile"))) for e in stored)
     rs = stored
     rep.check(okrs, "R13.d", rel, "Grid.load", "row-major reshape to (nrows, ncols)", _show(rs[0].val)[:120] if rs else "", line=load.lineno)
+    # cell values never pass through floating point: np.clip with an infinite bound converts integer rasters to float64
+    setter = mod.funcs.get("Grid.data.setter")
+    if setter is None:
+        raise AnalysisError(f"{rel}: Grid.data setter not found")
+    for fdef, nm in ((load, "Grid.load"), (setter, "Grid.data (setter)")):
+        paths_ = [p_ for p_ in pq.PEval().run(fdef) if p_.how in ("end", "return")]
+        sts = [(p_, e) for p_ in paths_ for e in p_.effects if e.kind == 'attr' and e.target == "self._data"]
+        okfl, det = bool(sts), "no store to self._data"
+        for p_, e in sts:
+            for wc, alt in pq.split_where(e.val):
+                conds = pq.flat_conds(list(p_.conds) + wc)
+                for cl in pq.find(alt, lambda x: pq.call_named(x, "clip") and len(x[2]) == 3):
+                    for b_ in cl[2][1:]:
+                        if b_ == ('sym', 'None'):
+                            continue
+                        finite = pq.cond_truth(conds, ('call', 'isinf', (b_,))) is False or pq.cond_truth(conds, ('call', 'isfinite', (b_,))) is True
+                        if not finite:
+                            okfl = False
+                            det = f"np.clip(.., {_show(cl[2][1])[:40]}, {_show(cl[2][2])[:40]}) with a bound that may be infinite"
+        rep.check(okfl, "R13.d", rel, nm, "cell values are clipped against finite bounds only (np.clip with an infinite bound turns an integer raster into float64: values beyond 2^53 change)",
+                  det if not okfl else "", line=fdef.lineno)
 
     # ---------------- R13.b dict tables -------------------------------------------------------------------------------------------
     for cls, init_name in (("Grid", "Grid.__init__"), ("Catchment", "Catchment.__init__")):
